@@ -336,7 +336,8 @@ namespace bluetoe
                             if ( start_address > end_address || !MemRegions::acceptable( start_address,end_address ) )
                                 return request_error( bluetoe::error_codes::invalid_offset );
 
-                            check_sum = this->public_checksum32( start_address, end_address - start_address );
+                            in_flash_mode = false;
+                            check_sum     = this->public_checksum32( start_address, end_address - start_address );
                         }
                         break;
                     case opc_start_flash:
@@ -378,6 +379,7 @@ namespace bluetoe
 
                             const std::uintptr_t start_address = read_address( value +1 );
 
+                            in_flash_mode = false;
                             this->run( start_address );
                         }
                         break;
@@ -386,6 +388,7 @@ namespace bluetoe
                             if ( write_size != 1 )
                                 return request_error( bluetoe::error_codes::invalid_attribute_value_length );
 
+                            in_flash_mode = false;
                             this->reset();
                         }
                         break;
@@ -398,6 +401,7 @@ namespace bluetoe
                             start_address = read_address( value +1 );
                             end_address   = read_address( value +1 + sizeof( std::uint8_t* ) );
                             check_sum     = this->checksum32( start_address );
+                            in_flash_mode = false;
 
                             if ( start_address > end_address || !MemRegions::acceptable( start_address,end_address ) )
                                 return request_error( bluetoe::error_codes::invalid_offset );
